@@ -52,6 +52,7 @@ def main():
         jobs += [("refactors", d.name, str(d / "refactor.diff")) for d in sorted((VERIF / "refactors").iterdir()) if (d / "refactor.diff").exists() and (not ids or d.name in ids)]
     bad_seed = bad_ref = 0
     n_und = [0]
+    und_all = {}
     with ProcessPoolExecutor(14) as ex:
         for kind, name, res, note in ex.map(run_one, jobs):
             if res is None:
@@ -66,6 +67,8 @@ def main():
                     print(f"seeded    {name}: " + ("" if own else "NOT CAUGHT by own check; ") + str({p: v['rules'] for p, v in res.items() if v['rules']}) + (f"  EXIT2 {errs}" if errs else ""))
             else:
                 und = res.pop("_undecided", {})
+                if und:
+                    und_all[name] = "; ".join(f"{p_} {', '.join(v_)}" for p_, v_ in sorted(und.items()))
                 if und and verbose:
                     print(f"refactor  {name}: undecided {und}")
                 n_und[0] += sum(len(v) for v in und.values())
@@ -78,6 +81,8 @@ def main():
                             if v["err"]: print(f"       {p} ERR {v['err']}")
                 elif verbose:
                     print(f"refactor  {name}: silent")
+    if which in ("refactors", "all") and not ids:
+        (VERIF / "refactors" / "_undecided.json").write_text(json.dumps(und_all, indent=1, sort_keys=True) + "\n")
     ns = sum(1 for j in jobs if j[0] == "seeded"); nr = sum(1 for j in jobs if j[0] == "refactors")
     print(f"seeded: {ns - bad_seed}/{ns} caught by their own check;  refactors: {nr - bad_ref}/{nr} silent ({n_und[0]} obligations undecided on the refactored trees)")
 
